@@ -253,7 +253,7 @@ def binop(P, op, a, b):
         a = P.choose(a)
     if isinstance(b, SUnion):
         b = P.choose(b)
-    if not is_sym(a) and not is_sym(b) and not isinstance(a, (SObj, Opaque)) and not isinstance(b, (SObj, Opaque)):
+    if not is_sym(a) and not is_sym(b) and not isinstance(a, (SObj, Opaque, SymSet)) and not isinstance(b, (SObj, Opaque, SymSet)):
         try:
             if isinstance(op, ast.Add):
                 return a + b
@@ -275,6 +275,9 @@ def binop(P, op, a, b):
             raise _pyexc(P, "ZeroDivisionError", str(e))
     if any(isinstance(x, Opaque) and str(x.tag).startswith("lenient:") for x in (a, b)):
         return Opaque("lenient:binop")
+    if isinstance(a, (bool, SBool)) and isinstance(b, (bool, SBool)) and isinstance(op, (ast.BitOr, ast.BitAnd, ast.BitXor)):
+        za, zb = zbool(a), zbool(b)
+        return mk_bool(z3.Or(za, zb) if isinstance(op, ast.BitOr) else z3.And(za, zb) if isinstance(op, ast.BitAnd) else z3.Xor(za, zb))
     num = lambda x: isinstance(x, (int, SInt, bool, SBool))
     if num(a) and num(b):
         za, zb = zint(a), zint(b)
@@ -666,6 +669,10 @@ def delitem(P, c, k):
         raise _pyexc(P, "IndexError")
     if isinstance(c, SObj):
         cname = P.resolve_cls(c)
+        for cc in P.class_mro(cname):
+            h = P.attr_hooks.get((cc, "__delitem__"))
+            if h:
+                return h(P, c, k)
         m = P.find_method(cname, "__delitem__")
         if m is not None:
             return P.call_closure(m, [c, k], {})
